@@ -67,7 +67,8 @@ struct ClmRoundtrip : Family {
 			switch (r.below(8)) { case 0: len = 0; break; case 1: len = 1 + r.below(4); break; case 2: len = (!big || thorough) && !many && r.chance(1, 3) ? 131071 + r.below(3) : r.below(5000); break; default: len = r.below(many ? 200 : 5000); break; }
 			if (len > 100000) big = true;
 			static const char* EXT[] = {".wav", ".WAV", ".Wav", ".wAV"};
-			w.set("name", nm).set("ext", EXT[r.below(4)]).set("dir", r.chance(1, 4) ? std::string("-") : "_w" + std::to_string(r.below(3))).set("cseed", hex64(r.next())).set("len", len)
+			static const char* ODD[] = {".wave", ".w", "-", ".snd", ".WAVE"}; // "-" = no extension at all
+			w.set("name", nm).set("ext", r.chance(1, 12) ? ODD[r.below(5)] : EXT[r.below(4)]).set("dir", r.chance(1, 4) ? std::string("-") : "_w" + std::to_string(r.below(3))).set("cseed", hex64(r.next())).set("len", len)
 			 .set("fmt16", r.chance(1, 4) ? 1 : 0).set("cb", r.chance(1, 2) ? 0 : r.below(65536)).set("pre", r.chance(2, 3) ? 0 : r.range(1, 2)).set("mid", r.chance(2, 3) ? 0 : r.range(1, 2)).set("post", r.chance(1, 2) ? 0 : r.range(1, 3)).set("sp", r.below(5));
 			p.world.push_back(w);
 		}
@@ -81,7 +82,19 @@ struct ClmRoundtrip : Family {
 			else if (mode == 6) w.set("bad", "badsize").set("delta", r.chance(1, 2) ? 1 + r.below(9) : (0xffffffffu - r.below(9)));
 			else if (mode == 7) { if (nf >= 2) w.set("bad", "fmtdiff").set("which", r.below(6)); }
 			else if (mode == 8) w.set("name", randName(r, 9, 12, false));
-			else { Line d = w; d.set("dir", "_wx").set("name", caseVariant(w.get("name"), 1 + r.below(3))); std::string a = d.get("name"), b = w.get("name"); if (a != b) p.world.push_back(d); }
+			else if (r.chance(1, 2)) { Line d = w; d.set("dir", "_wx").set("name", caseVariant(w.get("name"), 1 + r.below(3))); std::string a = d.get("name"), b = w.get("name"); if (a != b) p.world.push_back(d); }
+			else {
+				// same base name (possibly in another letter case), different extension: still a duplicate member name
+				Line d = w;
+				static const char* ALT[] = {".wave", ".w", "-", ".snd", ".WAVE", ".wav", ".WAV"};
+				std::string e;
+				for (int t = 0; t < 8 && (e.empty() || e == w.get("ext")); ++t) e = ALT[r.below(7)];
+				if (r.chance(1, 2)) d.set("name", caseVariant(w.get("name"), 1 + r.below(3)));
+				if (r.chance(1, 2)) d.set("dir", "_wx");
+				d.set("ext", e);
+				bool sameFile = d.get("dir") == w.get("dir") && ref::nameEqualNoCase(e, w.get("ext")) && d.get("name") == w.get("name");
+				if (e != w.get("ext") && !sameFile) p.world.push_back(d);
+			}
 		}
 		Line create = mkline("op", "create");
 		create.set("out", r.chance(1, 2) ? "_out.clm" : "_o/Music.CLM");
@@ -136,7 +149,7 @@ struct ClmRoundtrip : Family {
 			if (bad == "badsize") { uint32_t sz = ref::getU32(bytes, 4) + static_cast<uint32_t>(l.u("delta", 1)); for (int i = 0; i < 4; ++i) bytes[4 + static_cast<size_t>(i)] = static_cast<uint8_t>(sz >> (8 * i)); in.bad = true; }
 			std::string dir = l.get("dir", "-");
 			if (dir == "-") dir.clear();
-			std::string fname = in.base + l.get("ext", ".wav");
+			std::string fname = in.base + (l.get("ext", ".wav") == "-" ? std::string() : l.get("ext", ".wav"));
 			std::string onDisk = dir.empty() ? fname : dir + "/" + fname;
 			if (!dir.empty()) disk::mkdirs(dir + "/_s");
 			disk::put(onDisk, bytes);
